@@ -25,6 +25,11 @@ CHUNK = 25
 STATE_CAP = 2_000_000
 
 
+def out_dir():
+    """Where evidence/ and replays/ go: /verif, unless a sensitivity run redirects them (DSIM_OUT)."""
+    return os.environ.get("DSIM_OUT") or VERIF
+
+
 def load_prop(prop):
     mod = importlib.import_module(f"dsim.props.{prop.lower()}")
     return mod.SPEC
@@ -376,7 +381,7 @@ def cmd_check(prop, tier, base_seed, workers, runs_override=None, wall_cap=None,
             v = min(vs, key=lambda x: len(x["steps"]))
             rec = {"scenario": v["scenario"], "seed": v["seed"], "index": v["index"], "config": v["config"],
                    "steps": v["steps"]}
-            path = os.path.join(VERIF, "replays", f"{prop}-{v['violation']['kind']}-{v['seed']:016x}.json")
+            path = os.path.join(out_dir(), "replays", f"{prop}-{v['violation']['kind']}-{v['seed']:016x}.json")
             base = replay_once(spec, rec, _WORKER["scratch"])
             if base.violation is None or base.violation["kind"] != v["violation"]["kind"]:
                 print(f"HARNESS-ERROR property={prop}: generated run index={v['index']} does not replay "
@@ -406,8 +411,8 @@ def cmd_check(prop, tier, base_seed, workers, runs_override=None, wall_cap=None,
     wall = time.time() - t0
     ev = build_evidence(spec, prop, tier, base_seed, agg, nontriv, states, states_capped, truncated, selftest,
                         known_hits, alarms, wall, n_runs, workers)
-    os.makedirs(os.path.join(VERIF, "evidence"), exist_ok=True)
-    with open(os.path.join(VERIF, "evidence", f"{prop}.json"), "w") as f:
+    os.makedirs(os.path.join(out_dir(), "evidence"), exist_ok=True)
+    with open(os.path.join(out_dir(), "evidence", f"{prop}.json"), "w") as f:
         json.dump(ev, f, indent=1, default=core._json_default)
 
     print(f"{prop} tier={tier} seed={base_seed} runs={agg['runs']} steps={agg['steps']} "
